@@ -12,7 +12,7 @@ T = {
         , 'midpoint integration error bounded by a half-step re-integration on every 8th case; deciding class seg <= lambda/20 and matched segment lengths at >=3-wire junctions (DESIGN C01)'),
  'C02': ( 'impedance matrix vs independent MININEC-3 potential integrals'
         , 'executable reference model: adaptive quadrature (scipy quad, epsrel 1e-10) of the published formulation from recorded pulse geometry, compared entry-wise with the Z the real code filled'
-        , 'scipy.integrate.quad and numpy trusted; geometry reference re-derives pulse points/ends from the spec'),
+        , 'scipy.integrate.quad and numpy trusted; geometry reference re-derives pulse points/ends from the spec; wave number and small-radius condition of the reference are computed from the frequency, not read from the model; a second object created at another frequency and set to this one must reproduce the same terms'),
  'C03': ( 'image theory: ideal ground vs free space + mirror image'
         , 'metamorphic oracle: the same real code run on the harness-built mirrored free-space model; description-invariant current field, feed impedances, gain - 3.0103 dB'
         , 'tolerance by condition number as stated in the property; cond > 1e5 skipped and counted'),
@@ -24,7 +24,7 @@ T = {
         , 'tolerance by condition number as stated'),
  'C06': ( 'description independence (reversal, permutation, retagging, collinear splitting), mirror symmetry'
         , 'metamorphic oracle over fresh runs with description-invariant observables (current field by position, impedance by location, near field at fixed points, gain)'
-        , 'inside the stated domain (validity filter: unconnected wires >= 2 segments apart, one wire per ground point)'),
+        , 'inside the stated domain (validity filter: unconnected wires >= 2 segments apart, wires on a common neighbour >= 0.5 segments apart, one wire per ground point); field pattern compared as amplitude relative to the main beam; known findings classified by mechanism (feed at a current minimum, distributed load on a junction of three)'),
  'C07': ( 'linearity in source voltages; source data = V/I, Re(VI*)/2'
         , 'algebraic oracle over fresh and reused model objects (scaling, superposition with others at 0 V / absent / re-registered on the same object) + solve-residual and power contracts + SOURCE DATA block parsed back'
         , 'numpy.linalg trusted; tolerance 1e-9 * cond'),
@@ -42,7 +42,7 @@ T = {
         , 'reflection-point distance for the far-medium variant computed by the harness from heights and elevation'),
  'C12': ( 'number, numbering and placement of pulses from the wire topology'
         , 'independent geometry reference (own segmentation, union-find junctions with the 1e-3 tolerance, ground detection) vs len(pulses), pulse points, segments, ANTENNA GEOMETRY block; end points perturbed around the tolerance'
-        , 'clusters with diameter in (tol, 2 tol) excluded and counted (matching is transitive in the code)'),
+        , 'chains of near ends (diameter above the tolerance, neighbours within it) are expected joined transitively; the first-match joining of the code is emulated to classify the known finding near-end-chain-first-match'),
  'C13': ( 'segmentation tiles each object; taper, arc, helix, transformation rules'
         , 'contract on compute_segments + independent formulas (README) for arcs/helices, taper growth/min/max/mirror rules, transformations recomputed from the spec'
         , 'taper requests the code rejects (fallback to equal segments) are counted, not judged'),
@@ -66,7 +66,7 @@ T = {
         , 'V/m table format (%.3E / %.2f) is a known finding by mechanism'),
  'C20': ( 'fail-safe command line'
         , 'grammar-based argv fuzzer (valid generated command lines with hostile substitutions) run through main() under the event recorder; outcome classifier keyed by (exception type, innermost repository function)'
-        , 'new mechanisms are violations; remaining mechanisms listed in known_findings.json'),
+        , 'strata: fixed valid command lines, boundary-value lists, enumerated single-field substitutions, magnitude ladder over the overflow decades, random mutated lines; new mechanisms are violations; remaining mechanisms listed in known_findings.json'),
 }
 PENDING = 'check not built yet (work in progress in this session)'
 
